@@ -190,7 +190,7 @@ class Resolver:
         out = {}
         # ---- the function's own generic parameters bound by a trailing turbofish: `...::register_child::<(), ..>`
         meth = fn.name.split('::')[-1]
-        tm = re.search(r'::' + re.escape(meth) + r'::<(.*)>$', callee.strip(), re.S)
+        tm = re.search(r'(?:^|::)' + re.escape(meth) + r'::<(.*)>$', callee.strip(), re.S)
         if tm:
             fparams = self.fn_generics(fn)
             fargs = [a for a in _split_generics(tm.group(1)) if not a.startswith("'")]
@@ -317,6 +317,14 @@ class Resolver:
                     scored.append((1, f))
                 continue
             if info.selfty == '?derived':
+                # `#[derive(Trait)]`: the span only names the trait; Self is the type of the first argument (clone, eq,
+                # fmt ...) or, for argument-less functions (default), the return type
+                tyt = (f.arg_types[0] if f.nargs >= 1 else f.ret_type) or ''
+                tyt = re.sub(r'^&(mut )?', '', tyt.strip())
+                if not tyt or not tb or base_name(info.trait) != tb:
+                    continue
+                if base_name(tyt) == sb:
+                    scored.append((3, f))
                 continue
             ib = base_name(info.selfty)
             itb = base_name(info.trait) if info.trait else None
